@@ -81,8 +81,8 @@ P("C07", [f"{RED}:merge_breakpoints", f"{UT}:get_binsize", f"{ING}:_validate_pix
   "Proof core: merge_breakpoints (shared with C06). Bounded stand-in for the rest (all small input families x mergebuf x orders x nestings x dtype limits).",
   level="other", unverified=["merge_breakpoints", "CoolerMerger.__init__/__iter__", "merge_coolers", "write_pixels"])
 
-P("C08", [f"{RED}:_greedy_prune_partition", f"{UT}:get_binsize"], "bounded/C08.py",
-  "Proof core: the pruned pixel partition consists of values of the coarse-row edge list only (no coarse row is split), strictly ordered, from 0 to nnz, for every edge list and chunk size. Bounded stand-in for the rest (all small coolers x factors x chunk sizes x workers against a block-aggregate model).",
+P("C08", [f"{RED}:_greedy_prune_partition", f"{RED}:CoolerCoarsener.__init__", f"{UT}:get_binsize"], "bounded/C08.py",
+  "Proof core: CoolerCoarsener.__init__ builds, for every chromosome layout, factor and chunk size, a pixel partition whose every edge is the offset of a coarse-row start (bin1_offset[chrom_offset[c] + g*factor]) or nnz (loop invariant with ghost witnesses; Cooler/GenomeSegmentation by assumed models), and _greedy_prune_partition keeps only values of that edge list, ordered, from 0 to nnz - so no coarse row is ever split across spans; get_binsize (which decides the re-binning path) is truthful (C20). Bounded stand-in for the rest (all small coolers x factors x chunk sizes x workers against a block-aggregate model).",
   level="other", unverified=["CoolerCoarsener.__init__/_aggregate/__iter__", "_greedy_prune_partition", "coarsen_bins"])
 
 P("C09", [f"{RED}:get_multiplier_sequence"], "bounded/C09.py",
